@@ -40,9 +40,12 @@ VARIABLES
   cand,    \* candidate sync point (a flush_meta in progress / done)
   crashed, cimg, \* terminal crash state and its image
   kf,      \* known-finding deviations taken on this path
-  lastc    \* the call that has just returned (for the Ret predicates)
+  lastc,   \* the call that has just returned (for the Ret predicates)
+  cinfo    \* where/how the crash happened (hidden by the VIEW: equal images are checked once)
 
 vars == <<l, sil, ri, vis, dur, pend, fsn, rq, cur, kind, calls, sync, cand,
+          crashed, cimg, kf, lastc, cinfo>>
+View == <<l, sil, ri, vis, dur, pend, fsn, rq, cur, kind, calls, sync, cand,
           crashed, cimg, kf, lastc>>
 
 R0 == Rec[ri]
@@ -145,13 +148,13 @@ Init ==
     /\ calls = {}
     /\ sync = [have |-> FALSE, val |-> <<>>, later |-> <<>>]
     /\ cand = NoCand
-    /\ crashed = FALSE /\ cimg = <<>> /\ kf = {} /\ lastc = NoCall
+    /\ crashed = FALSE /\ cimg = <<>> /\ kf = {} /\ lastc = NoCall /\ cinfo = <<>>
 
 ---------------------------------------------------------------------------
 (* Backend events *)
 IsEv(e) == ~crashed /\ l <= N /\ Ev.e = e
 Consume == l' = l + 1 /\ sil' = FALSE
-NoRet == lastc' = NoCall
+NoRet == lastc' = NoCall /\ cinfo' = cinfo
 
 Req ==
   /\ IsEv("Req") /\ Consume
@@ -379,7 +382,7 @@ Ret ==
                                  ELSE IF sync.have THEN sync.later[b] ELSE {}]]
         ELSE sync' = sync
      /\ lastc' = c
-  /\ UNCHANGED <<ri, vis, dur, pend, fsn, rq, crashed, cimg>>
+  /\ UNCHANGED <<ri, vis, dur, pend, fsn, rq, crashed, cimg, cinfo>>
 
 \* the device is dropped: whatever was not flushed is gone; from here on the
 \* file alone determines the guest content (the specification's own reader)
@@ -441,11 +444,13 @@ CrashPoint ==
 Crash ==
   /\ CrashPoint
   /\ \E T \in CrashSets : \E keep \in {TRUE, FALSE} :
-       cimg' = ImageOf(T \cup (IF keep THEN IrrPairs ELSE {}))
+       /\ cimg' = ImageOf(T \cup (IF keep THEN IrrPairs ELSE {}))
+       /\ cinfo' = [line |-> l, keep |-> keep,
+                    persisted |-> { <<pend[p[1]].id, p[2]>> : p \in T }]
   /\ crashed' = TRUE /\ sil' = TRUE
   \* canonical terminal state: equal images are checked once
   /\ l' = 0 /\ pend' = <<>> /\ fsn' = {} /\ rq' = {} /\ calls' = {}
-  /\ cand' = NoCand /\ vis' = <<>> /\ dur' = <<>> /\ NoRet
+  /\ cand' = NoCand /\ vis' = <<>> /\ dur' = <<>> /\ lastc' = NoCall
   /\ UNCHANGED <<ri, cur, kind, sync, kf>>
 
 Next == Req \/ Done \/ Call \/ LinOther \/ Ret \/ Drop \/ Skip \/ End \/ Crash
@@ -531,8 +536,18 @@ C03Detail ==
   IF ~F!TablesOK(vis, G) THEN <<"tables">>
   ELSE <<"under", F!Undercounted(vis, G), "leaked", F!Leaked(vis, G),
          "dbl", ~F!NoDoubleRef(F!RefSet(vis, G)), "wf", F!WellFormed(vis, G)>>
+\* for every under-counted cluster: who references it in the crash image
+\* <<cluster, stored, { <<tag, index, flat kind, kind in the image>> }>>
 C04Detail ==
-  IF ~F!TablesOK(cimg, G) THEN <<"tables">> ELSE <<"under", F!Undercounted(cimg, G)>>
+  IF ~F!TablesOK(cimg, G) THEN <<"tables", cinfo>>
+  ELSE LET RS == F!RefSet(cimg, G) IN
+       <<"under",
+         { <<c, F!StoredRc(cimg, G, c),
+             { <<r[1], r[2],
+                 IF r[1] = 5 /\ r[2] \in GCs THEN kind[r[2]] ELSE "-",
+                 IF r[1] = 5 THEN F!EKind(F!L2E(cimg, G, r[2])) ELSE "-">> :
+               r \in { x \in RS : x[3] = c } }>> : c \in F!Undercounted(cimg, G) },
+         cinfo>>
 C05Bad == { gb \in GBs : ~(Unknown \in sync.val[gb]
                            \/ GuestCrash(gb) \in sync.val[gb] \cup sync.later[gb]) }
 
@@ -553,7 +568,7 @@ Audit ==
   /\ ~Inv_C02 => Report("C02", <<"blocks", BadBlocks>>)
   /\ ~Inv_C03 => Report("C03", C03Detail)
   /\ ~Inv_C04 => Report("C04", C04Detail)
-  /\ ~Inv_C05 => Report("C05", <<"blocks", C05Bad>>)
+  /\ ~Inv_C05 => Report("C05", <<"blocks", { <<gb, GuestCrash(gb), sync.val[gb], sync.later[gb]>> : gb \in C05Bad }, cinfo>>)
   /\ ~Inv_C10 => Report("C10", <<Last.dev, Last.k, Last.blk>>)
   /\ ~Inv_C16 => Report("C16", <<Last.k, Last.blk, Last.al>>)
   /\ ~Inv_C07a => Report("C07", <<Last.e, Last.msg>>)
@@ -562,13 +577,19 @@ Audit ==
   /\ ~Inv_C13b => Report("C13", <<lastc.op, Last.res, Last.n, lastc.cls>>)
   /\ ~Inv_C07b => Report("C07", <<lastc.op, Last.res, Last.msg>>)
   /\ crashed => TLCSet(999999, TLCGet(999999) + 1)
+  \* crash images on which Inv_C05 says something: a sync point exists and
+  \* some synced block holds data
+  /\ (crashed /\ sync.have /\ \E gb \in GBs : sync.val[gb] \notin {{0}, {Unknown}})
+       => TLCSet(999998, TLCGet(999998) + 1)
 
 \* registers: furthest line per run, number of distinct crash images
 ASSUME \A i \in RunStarts : TLCSet(i, i)
 ASSUME TLCSet(999999, 0)
+ASSUME TLCSet(999998, 0)
 
 Finished ==
   /\ \A i \in RunStarts : Out(<<"REACHED", Rec[i].name, i, TLCGet(i)>>)
   /\ Out(<<"CRASHIMAGES", TLCGet(999999)>>)
+  /\ Out(<<"SYNCEDCRASH", TLCGet(999998)>>)
 
 =============================================================================
